@@ -197,7 +197,7 @@ def laws(report, rng, t, inp):
             pos = [getattr(c.x12_map_node, 'pos', None) for c in after_nodes]
             k = after_nodes.index(newn)
             mypos = pos[k]
-            if any(q is not None and q > mypos for q in pos[:k]) or any(q is not None and q < mypos for q in pos[k + 1:]):
+            if any(q is not None and q > mypos for q in pos[:k]) or any(q is not None and q <= mypos for q in pos[k + 1:]):
                 report.fail('C10:add-out-of-order', 'add_segment placed a node of position %r at index %d among positions %r' % (mypos, k, pos), inp)
             t.delete_segment(newn.seg_data) if False else None
     # L5 copy independence
@@ -235,8 +235,24 @@ def laws(report, rng, t, inp):
             if len(before) - len(after) != segs_removed:
                 report.fail('C10:delete-removes-other', 'delete_node(%r) removed %d segments, the node held %d' % (p, len(before) - len(after), segs_removed),
                             dict(inp, path=p))
-        if dump(c)[:0] != []:
-            pass
+    # L4b the same placement law after a delete (the deleted node may still be in the children list)
+    loops_top = [x for x in ctx_gen.live_children(t) if x.type == 'loop']
+    segs_top = [x for x in ctx_gen.live_children(t) if x.type == 'seg']
+    if len(segs_top) >= 2:
+        victim = segs_top[0] if len(segs_top) > 2 else None
+        later = segs_top[-1]
+        if victim is not None and victim is not later:
+            report.count('law:add-after-delete')
+            victim.delete()
+            newn = t.add_segment(later.seg_data.format())
+            live = ctx_gen.live_children(t)
+            if newn in live:
+                pos = [getattr(x.x12_map_node, 'pos', None) for x in live]
+                k = live.index(newn)
+                if any(q is not None and q > pos[k] for q in pos[:k]) or any(q is not None and q <= pos[k] for q in pos[k + 1:]):
+                    report.fail('C10:add-out-of-order:after-delete', 'after a delete, add_segment placed a node of position %r at index %d among positions %r' % (pos[k], k, pos), inp)
+            else:
+                report.fail('C10:add-not-placed:after-delete', 'after a delete, add_segment did not put the node under the loop', inp)
 
 
 def replay(rp):
